@@ -4,6 +4,9 @@ import PetgraphModel.Proofs.Graph
 import PetgraphModel.Proofs.GraphRefine
 import PetgraphModel.Proofs.GraphRemove
 import PetgraphModel.Proofs.C01W2Main
+import PetgraphModel.Proofs.C01W4Walker
+import PetgraphModel.Proofs.C01W4Convert
+import PetgraphModel.Spec.C01RunChecks
 /-
 C01 — `Graph` behaves as a compact-indexed multigraph under every operation history.
 
@@ -173,7 +176,8 @@ def C01_all_histories_statement : Prop :=
       sp.edges.map (fun e => (e.src, e.tgt, e.weight)) =
         (run (G.empty endv directed) ops).1.edges.map (fun e => (e.src, e.tgt, e.weight))
 
-/-- **refinement step**: in a state reached without removals, every core call answers what the
+/-- *(stage 1 — SUPERSEDED by `C01_refines`, which covers every call under `RInv`; kept for the record)*
+**refinement step**: in a state reached without removals, every core call answers what the
 plain multigraph allows — counts, weights, endpoints, `find_edge`/`contains_edge`/`update_edge`
 (some connecting edge), neighbours and incident edges per direction (directed: most recently added
 first; undirected: each incident edge once with the queried node as source, a self-loop once),
@@ -183,7 +187,9 @@ theorem C01_refines_partial (s : State) (h : Inv1 s) (op : Op) (hc : isCore op =
     SpecAccepts (abs s) op (step s op).2 (abs (step s op).1) ∧ Inv1 (step s op).1 :=
   ⟨refines_step h op hc, inv1_step h op (isRemoval_of_core hc)⟩
 
-/-- **all histories without removal**: after any sequence of core calls from any constructor the
+/-- *(stage 1 — SUPERSEDED by `C01_all_histories`, which has no restriction on the calls; a stage-1 run
+is a run of the full relation by `C01_specRun2_of_specRun`; kept for the record)*
+**all histories without removal**: after any sequence of core calls from any constructor the
 invariant holds and the whole sequence of answers is a run of the specification ending in the
 abstraction of the final state.  Missing for the full statement: stage 2 (`remove_*`, `retain_*`)
 and `filter_map` / conversion / walkers / `first_edge` / `next_edge` as steps of the relation (they
@@ -195,7 +201,8 @@ theorem C01_all_histories_partial (endv : Nat) (directed : Bool) (ops : List Op)
       (abs (run (G.empty endv directed) ops).1) :=
   refines_run ops (G.empty endv directed) (inv1_empty endv directed) hall
 
-/-- SAFETY / termination for those histories: no unchecked access goes out of bounds, no list walk
+/-- *(stage 1 — SUPERSEDED by `C01_no_fault` / `C01_walker_no_fault`; kept for the record)*
+SAFETY / termination for those histories: no unchecked access goes out of bounds, no list walk
 runs out of fuel, no `debug_assert!` fires — the specification never answers with a fault. -/
 theorem C01_no_fault_partial (s : State) (h : Inv1 s) (op : Op) (hc : isCore op = true) (f : Fault) :
     (step s op).2 ≠ .fault f := by
@@ -356,6 +363,242 @@ theorem C01_chain (s : State) (h : Inv s) (k : Bool) (i : Nat) (nd : Node) (hnd 
     ∃ c, chain s.edges k s.fuel (nd.next k) = .ok c ∧ ChainSpec s k i c :=
   h.chain_spec k i nd hnd
 
+/-! ### detached walkers interleaved with other calls (wave 4)
+
+`Model/GraphWalkers.lean` puts a table of `WalkNeighbors` values beside the graph: `walkerNew a mode`
+detaches a walker, `walkerNext w` is `walkers[w].next(&g)`, every call of the `Graph` alphabet may be
+interleaved (`GW.WOp`).  `Spec/CompactGraphWalkers.lean` says what the plain multigraph prescribes:
+as long as only structure-preserving calls happen (queries, weight mutation — the documented use —,
+`map`, `into_edge_type`, other walkers) a walker lists what `neighbors*` listed when it was detached;
+once the structure changes under it only memory safety and the shape of an answer remain specified. -/
+
+/-- walker-layer specification: state, step relation, runs (see `Spec/CompactGraphWalkers.lean`) -/
+abbrev WSpec := GProofs.WSpec
+abbrev WAccepts := GProofs.WAccepts
+abbrev SpecRunW := GProofs.SpecRunW
+
+/-- **`WalkNeighbors::next` never faults** in a graph satisfying the invariant — for EVERY walker
+value: fresh, exhausted, or stale because nodes / edges were removed, the graph was cleared, reversed,
+rebuilt … under it (every cursor is either out of range or a live edge whose `next` chain is a
+suffix of an adjacency list) -/
+theorem C01_walker_next_total (s : State) (h : Inv s) (wk : Walker) :
+    ∃ wk' r, walkerNext s wk = .ok (wk', r) :=
+  GProofs.walkerNext_ok h wk
+
+/-- the shape of every answer, in every graph and for every walker value (no hypothesis): a
+`Some((e, n))` names an edge that is live *now*, and `n` is one of its endpoints -/
+theorem C01_walker_answer_live (s : State) (wk wk' : Walker) (e n : Nat)
+    (h : walkerNext s wk = .ok (wk', some (e, n))) :
+    ∃ ed, s.edges[e]? = some ed ∧ (n = ed.src ∨ n = ed.tgt) :=
+  GProofs.walkerNext_some h
+
+/-- **all histories with interleaved walkers**: after any finite sequence of `Graph` calls,
+`walkerNew` and `walkerNext` — in any interleaving, with any arguments — the whole sequence of answers
+is a run of the walker-layer specification: every `Graph` call is accepted by `SpecAccepts2`, every
+undisturbed walker answers the next item of `CGS.nbr` as it was when the walker was detached (in
+order for a directed graph, as a multiset otherwise), a disturbed walker answers `None` or a live
+edge with one of its endpoints; the final multigraph has the model's content -/
+theorem C01_walker_all_histories (endv : Nat) (directed : Bool) (ops : List GW.WOp) :
+    ∃ x : WSpec, SpecRunW ⟨CGS.empty endv directed, []⟩ ops (GW.run (GW.init endv directed) ops).2 x ∧
+      x.ws.length = (GW.run (GW.init endv directed) ops).1.ws.length ∧
+      x.sp.nodes = (GW.run (GW.init endv directed) ops).1.g.nodes.map (·.weight) ∧
+      x.sp.edges.map (fun e => (e.src, e.tgt, e.weight)) =
+        (GW.run (GW.init endv directed) ops).1.g.edges.map (fun e => (e.src, e.tgt, e.weight)) := by
+  obtain ⟨x, hrun, hw⟩ := GProofs.wrun_refines ops _ _ (GProofs.winv_init endv directed)
+  obtain ⟨st, ck, _, hsp⟩ := hw.rinv
+  refine ⟨x, hrun, hw.len, ?_, ?_⟩
+  · rw [hsp]; rfl
+  · rw [hsp]; exact GProofs.absG_content _ _ _
+
+/-- **never a fault, for any interleaving** of `Graph` calls (removals, `retain_*`, `clear`, `reverse`,
+conversions … included) with the creation and stepping of detached walkers: no answer of any such
+history is a fault — neither of a `Graph` call nor of a walker -/
+theorem C01_walker_no_fault (endv : Nat) (directed : Bool) (ops : List GW.WOp) :
+    ∀ o ∈ (GW.run (GW.init endv directed) ops).2, (∀ f, o ≠ .fault f) ∧ (∀ f, o ≠ .base (.fault f)) := by
+  obtain ⟨x, hrun, _⟩ := GProofs.wrun_refines ops _ _ (GProofs.winv_init endv directed)
+  exact GProofs.specRunW_no_fault hrun
+
+/-- **an undisturbed walker lists exactly what `neighbors` / `edges` list.**  Detach a walker after
+any history `pre` and let any quiet history `post` follow — link-preserving `Graph` calls (all
+queries; weight mutation through every entry point, `map`, `into_edge_type`, an atomic bumping walk),
+creation of further walkers, steps of any walker.  Then the `i`-th answer of the new walker is
+`L[i]?` — the items of `L` in order, then `None` for ever — where `L` is, in the graph at the moment
+of detaching: the specification's `CGS.nbr`; what the atomic `walk` lists; the (edge, neighbour)
+sequence of `neighbors_directed` / `neighbors_undirected` of that mode; and its edge indices are those
+of `edges_directed`. -/
+theorem C01_walker_fresh_exact (endv : Nat) (directed : Bool) (pre : List GW.WOp) (a mode : Nat) (post : List GW.WOp)
+    (hq : ∀ op ∈ post, op.quietFor = true) :
+    ∃ (st : Nat → Nat) (ck : Nat) (L : List (Nat × Nat)),
+      RInv (GW.run (GW.init endv directed) pre).1.g st ck ∧
+      L = CGS.nbr (absG (GW.run (GW.init endv directed) pre).1.g st ck) a (GProofs.normMode mode) ∧
+      (let s0 := (GW.run (GW.init endv directed) pre).1
+       let ans := GW.answersOf s0.ws.length post (GW.run (GW.step s0 (.walkerNew a mode)).1 post).2
+       ans = (List.range ans.length).map (fun i => GW.WOut.item L[i]?) ∧
+       step s0.g (.walk a mode false) = (s0.g, .pairs L) ∧
+       (mode = 2 → neighborsUndirected s0.g a = .ok L) ∧
+       (∀ k : Bool, mode = (if k then 1 else 0) → neighborsDirected s0.g a k = .ok L ∧
+          ∃ refs, edgesDirected s0.g a k = .ok refs ∧ refs.map (·.ix) = L.map (·.1))) := by
+  obtain ⟨x, _, hw⟩ := GProofs.wrun_refines pre _ _ (GProofs.winv_init endv directed)
+  obtain ⟨st, ck, hr, _⟩ := hw.rinv
+  refine ⟨st, ck, _, hr, rfl, ?_, ?_, ?_, ?_⟩
+  · have hws : (GW.step (GW.run (GW.init endv directed) pre).1 (.walkerNew a mode)).1.ws[(GW.run (GW.init endv directed) pre).1.ws.length]? =
+        some (walkerNew (GW.run (GW.init endv directed) pre).1.g a mode) := by
+      show ((GW.run (GW.init endv directed) pre).1.ws ++ [_])[_]? = _
+      rw [List.getElem?_append_right (Nat.le_refl _)]
+      simp
+    exact GProofs.answers_of_rem _ post _ _ _ hr.inv hws (GProofs.rem_to_remG (GProofs.rem_new hr a mode)) hq
+  · obtain ⟨l, h1, h2⟩ := GProofs.walk_result hr a mode false
+    have hf : ∀ (l : List (Nat × Nat)) (g : State), l.foldl (fun g p => GProofs.bumpIf false g p.1) g = g := by
+      intro l
+      induction l with
+      | nil => intro g; rfl
+      | cons p l ih => intro g; rw [List.foldl_cons, ih]; rfl
+    simp only [step, h1, liftF, hf]
+    rw [h2]
+  · intro hm
+    rw [hm]
+    exact hr.neighborsUndirected_eq a
+  · intro k hm
+    have hn : GProofs.normMode mode = (if k then 1 else 0) := by
+      rw [hm]; cases k <;> rfl
+    rw [hn]
+    refine ⟨hr.neighborsDirected_eq a k, _, hr.edgesDirected_eq a k, ?_⟩
+    rw [List.map_map]
+    exact GProofs.refs_ix _ a k
+
+/-- **every walker runs dry, stale ones included.**  After any history `pre`, for EVERY walker in the
+table — whatever happened to the graph since it was detached — there is a list `R` of at most `2 m`
+items (`m` = current edge count) such that, while only quiet calls follow, the `i`-th answer of that
+walker is `R[i]?`: at most `2 m` items, then `None` for ever.  (The harness runs walkers to exhaustion
+at the end of a case and reports a walker that yields more than `2 m + 2` items.) -/
+theorem C01_walker_terminates (endv : Nat) (directed : Bool) (pre : List GW.WOp) (w : Nat) (post : List GW.WOp)
+    (hw : w < (GW.run (GW.init endv directed) pre).1.ws.length) (hq : ∀ op ∈ post, op.quietFor = true) :
+    ∃ R : List (Nat × Nat), R.length ≤ 2 * (GW.run (GW.init endv directed) pre).1.g.edges.length ∧
+      (let ans := GW.answersOf w post (GW.run (GW.run (GW.init endv directed) pre).1 post).2
+       ans = (List.range ans.length).map (fun i => GW.WOut.item R[i]?)) := by
+  obtain ⟨x, _, hwi⟩ := GProofs.wrun_refines pre _ _ (GProofs.winv_init endv directed)
+  obtain ⟨st, ck, hr, _⟩ := hwi.rinv
+  obtain ⟨R, hrem, hlen⟩ := GProofs.remG_any hr.inv ((GW.run (GW.init endv directed) pre).1.ws[w])
+  exact ⟨R, hlen, GProofs.answers_of_rem w post _ _ R hr.inv (List.getElem?_eq_getElem hw) hrem hq⟩
+
+/-! ### conversions `Graph ↔ StableGraph`: the C01 and the C02 model agree (wave 4)
+
+C01 models the round trip `Graph::from(StableGraph::from(g))` as `rebuild` (re-insertion in index
+order).  The C02 vertical has its own mirror model `SG` of `stable_graph/mod.rs`, in which
+`Graph::from(stable_graph)` is `SG.toGraph` and a plain `Graph` is a state without vacancies.
+`toStable` is `StableGraph::from(graph)` from a C01 state to a C02 state (weights wrapped in `Some`,
+links kept, counts = lengths, empty free lists; `noLimit` / `debug` are the two build parameters the
+C02 model carries). -/
+
+/-- `StableGraph::from(graph)` between the two mirror models -/
+abbrev toStable := C01Conv.toStable
+/-- C01's plain multigraph read as a C02 reference multigraph (every slot live, stamps forgotten) -/
+abbrev liftSpec := C01Conv.liftSpec
+
+/-- **the two models agree on `Graph → StableGraph → Graph`.**  For every C01 state satisfying the
+invariant, every index width and both build modes: C02's `Graph::from` applied to
+`StableGraph::from(g)` returns — without fault — exactly the embedding of C01's `rebuild g`; both the
+intermediate `StableGraph` and the result satisfy C02's invariant; in C02's reference semantics the
+result is the compaction of the input, which (no vacancy) keeps every node and edge index; and in
+C01's terms node weights and `(source, target, weight)` per edge index are unchanged, the result
+being a removal-free state (`Inv1`: adjacency = descending index). -/
+theorem C01_conversion_agrees_with_C02 (s : State) (h : Inv s) (noLimit debug : Bool) :
+    ∃ s', rebuild s = .ok s' ∧
+      SG.toGraph (toStable noLimit debug s) = .ok (toStable noLimit debug s') ∧
+      SGProofs.Inv (toStable noLimit debug s) ∧ SGProofs.Inv (toStable noLimit debug s') ∧
+      SGProofs.abs (toStable noLimit debug s') = (SGProofs.abs (toStable noLimit debug s)).compact ∧
+      (SGProofs.abs (toStable noLimit debug s')).equiv (SGProofs.abs (toStable noLimit debug s)) ∧
+      s'.nodes.map (·.weight) = s.nodes.map (·.weight) ∧ s'.edges.map edgeEnds = s.edges.map edgeEnds ∧
+      s'.endv = s.endv ∧ s'.directed = s.directed ∧ Inv1 s' := by
+  obtain ⟨s', h1, h2, h3, h4, h5, h6⟩ := C01Conv.rebuild_toGraph noLimit debug s h
+  have hi := C01Conv.inv_toStable noLimit debug s h
+  obtain ⟨r1, r2, _⟩ := SGProofs.toGraph_refines hi h2
+  have hnv := SGProofs.toGraph_no_vacancy hi h2
+    (by rw [C01Conv.nodeBound_toStable]; rfl) (by rw [C01Conv.edgeBound_toStable]; rfl)
+  obtain ⟨s'', f1, f2, _⟩ := GProofs.filterMap_refines h id 0 [] [] 0 0
+  have : s'' = s' := by
+    have : rebuild s = .ok s'' := f1
+    rw [h1] at this
+    exact (Except.ok.inj this).symm
+  subst this
+  exact ⟨s'', h1, h2, hi, r2, r1, hnv, h5, h6, h3, h4, f2⟩
+
+/-- C02's reference multigraph of `StableGraph::from(g)` is C01's plain multigraph of `g` -/
+theorem C01_stable_abs (s : State) (st : Nat → Nat) (ck : Nat) (noLimit debug : Bool) :
+    SGProofs.abs (toStable noLimit debug s) = liftSpec (absG s st ck) :=
+  C01Conv.abs_toStable noLimit debug s st ck
+
+/-- **`Graph::from(stable_graph)` lands in the C01 model, indices compacted in order.**  For ANY state
+of the C02 model satisfying C02's invariant — vacancies, free lists, any history — whose live
+weights are non-negative (C01 models weights as `Nat`): C02's `Graph::from` returns normally, its
+result is the embedding of a C01 state `g` built by `add_node` / `add_edge` alone (`Inv1`, hence `Inv`
+and every C01 theorem applies to it and to every history continuing from it), and the plain
+multigraph of `g` is the compaction of the `StableGraph`'s reference multigraph: live nodes in index
+order (new index = rank among the live nodes), live edges in index order with renamed endpoints. -/
+theorem C01_from_stable_graph (sg : SG.State) (hinv : SGProofs.Inv sg)
+    (hwn : ∀ n ∈ sg.nodes, 0 ≤ n.w.getD 0) (hwe : ∀ e ∈ sg.edges, 0 ≤ e.w.getD 0) :
+    ∃ (r : SG.State) (g : State), SG.toGraph sg = .ok r ∧ r = toStable sg.noLimit sg.debug g ∧ Inv1 g ∧
+      g.endv = sg.fin ∧ g.directed = sg.directed ∧
+      ∀ st ck, liftSpec (absG g st ck) = (SGProofs.abs sg).compact := by
+  obtain ⟨r, hr⟩ := C01Conv.toGraph_ok hinv
+  obtain ⟨g, h1, h2, h3, h4⟩ := C01Conv.toGraph_image sg r
+    (fun n hn w hw => by have := hwn n hn; rw [hw] at this; exact this)
+    (fun e he w hw => by have := hwe e he; rw [hw] at this; exact this) hr
+  refine ⟨r, g, hr, h1, h2, h3, h4, ?_⟩
+  intro st ck
+  have := (SGProofs.toGraph_refines hinv hr).1
+  rw [h1, C01Conv.abs_toStable sg.noLimit sg.debug g st ck] at this
+  exact this
+
+/-! ### run-time checks of the hypotheses
+
+Every history-quantified theorem above starts from a constructor (`G.empty` / `GW.init`) and has no
+hypothesis about the concrete case: the driver's mirror state *is* `run (G.empty endv directed) ops`
+for the requests seen so far, so `Inv` / `RInv` hold for it by `C01_rinv_all_histories`.  What the
+driver does evaluate on every request:
+
+* the two INPUT conditions of props/C01.json (`Spec/C01RunChecks.lean`): index arguments representable
+  in the index type, a `usize` graph below `usize::MAX` elements — a failure is reported as
+  `SPECFAIL generator left the proved range`;
+* the classification "this call keeps the structure" (`GW.keepsLinks`), which decides whether a
+  detached walker is still judged exactly — the hypothesis `quietFor` of `C01_walker_fresh_exact`;
+* the walker judge itself (`specWalkerNext`). -/
+
+/-- a passed `reprB` check: every index argument of the request is `≤ Ix::max()` -/
+theorem C01_repr_check (endv : Nat) (l : List Nat) (h : C01Checks.reprB endv l = true) : ∀ a ∈ l, a ≤ endv := by
+  intro a ha
+  have := List.all_eq_true.mp h a ha
+  simpa using this
+
+/-- a passed `usizeOkB` check: a `usize` graph has fewer than `usize::MAX` nodes and edges, so the
+model's limit test `END ≠ len` answers what the real (limit-free) `usize` code answers -/
+theorem C01_usize_check (s : State) (h : C01Checks.usizeOkB s.endv s.nodes.length s.edges.length = true)
+    (hu : s.endv = C01Checks.usizeMax) : canGrow s s.nodes.length = true ∧ canGrow s s.edges.length = true := by
+  unfold C01Checks.usizeOkB at h
+  simp only [hu, bne_self_eq_false, Bool.false_or, Bool.and_eq_true, decide_eq_true_eq] at h
+  unfold canGrow
+  simp only [hu, bne_iff_ne, ne_eq]
+  omega
+
+/-- a passed `keepsLinks` check: the call leaves every `next` link, every endpoint and both counts
+as they are (so every walker keeps what it still has to list) -/
+theorem C01_keepsLinks_check (s : State) (op : Op) (h : GW.keepsLinks op = true) :
+    (step s op).1.endv = s.endv ∧
+    (step s op).1.nodes.map (fun n => (n.next0, n.next1)) = s.nodes.map (fun n => (n.next0, n.next1)) ∧
+    (step s op).1.edges.map (fun e => (e.next0, e.next1, e.src, e.tgt)) = s.edges.map (fun e => (e.next0, e.next1, e.src, e.tgt)) :=
+  let hs := GProofs.keepsLinks_sameLinks s op h
+  ⟨hs.endv, hs.nodes, hs.edges⟩
+
+/-- an answer the driver's walker judge lets pass is an answer the specification accepts -/
+theorem C01_walker_judge_check (x : WSpec) (w : Nat) (sw sw' : GProofs.SWalker) (ans : Option (Nat × Nat))
+    (hw : x.ws[w]? = some sw) (h : GProofs.specWalkerNext x.sp sw ans = some sw') :
+    WAccepts x (.walkerNext w) (.item ans) { x with ws := x.ws.set w sw' } := by
+  show (match x.ws[w]? with
+    | none => _
+    | some sw => _)
+  rw [hw]
+  exact ⟨ans, sw', rfl, h, rfl⟩
+
 /-! ### non-vacuity -/
 
 /-- a concrete history: parallel edges, a self-loop, `update_edge`, `reverse`, a failing call -/
@@ -386,5 +629,55 @@ example : (run (G.empty 255 true) demoOps2).2.getLast? = some (.erefs [⟨0, 0, 
 example : ∃ op ∈ demoOps2, isCore op = false := ⟨.removeEdge 0, by simp [demoOps2], rfl⟩
 example : ∃ sp, SpecRun2 (CGS.empty 255 true) demoOps2 (run (G.empty 255 true) demoOps2).2 sp :=
   let ⟨_, sp, h, _⟩ := C01_all_histories 255 true demoOps2; ⟨sp, h⟩
+
+/-! non-vacuity of the wave-4 theorems -/
+
+/-- walkers interleaved with weight mutation (keeps them exact), `remove_edge` / `remove_node` / `clear`
+(disturb them): walker 0 walks the out-list of node 0, walker 1 all incident edges of node 0 -/
+def demoW : List GW.WOp :=
+  [.base (.addNode 1), .base (.addNode 2), .base (.addNode 3), .base (.addEdge 0 1 5), .base (.addEdge 0 2 6),
+   .base (.addEdge 0 1 7), .base (.addEdge 2 0 8),
+   .walkerNew 0 0, .walkerNext 0, .base (.edgeWeightMut 2 9), .walkerNew 0 2, .walkerNext 0, .walkerNext 1,
+   .base (.removeEdge 0), .walkerNext 0, .walkerNext 1, .walkerNext 1, .base (.removeNode 0), .walkerNext 1, .walkerNext 1,
+   .base .clear, .walkerNext 1]
+
+/-- the stale walker 0 keeps answering after `remove_edge(0)` moved edge 3 = (2 → 0) to index 0: it
+reads the *new* edge 0 and answers `(0, 0)` — a live edge with one of its endpoints, as specified -/
+example : ((GW.run (GW.init 255 true) demoW).2.drop 7).take 8 =
+    [.walkerId 0, .item (some (2, 1)), .base (.optNat (some 7)), .walkerId 1, .item (some (1, 2)),
+     .item (some (2, 1)), .base (.optNat (some 5)), .item (some (0, 0))] := rfl
+example : ∃ x, SpecRunW ⟨CGS.empty 255 true, []⟩ demoW (GW.run (GW.init 255 true) demoW).2 x :=
+  let ⟨x, h, _⟩ := C01_walker_all_histories 255 true demoW; ⟨x, h⟩
+/-- the hypothesis of `C01_walker_fresh_exact` is satisfiable by a history that mutates weights,
+switches the edge type, queries, creates and steps other walkers -/
+example : ∀ op ∈ ([.walkerNext 0, .base (.edgeWeightMut 2 9), .base (.intoEdgeType false), .walkerNew 0 2,
+    .walkerNext 0, .walkerNext 1, .base (.neighbors 0), .base (.map 1 1), .walkerNext 0, .walkerNext 0] : List GW.WOp),
+    op.quietFor = true := by decide
+/-- the hypothesis of `C01_walker_terminates`: walker 1 exists after `demoW` (it is stale: `clear`) -/
+example : 1 < (GW.run (GW.init 255 true) demoW).1.ws.length := by decide
+/-- … and it is sharp: `remove_edge` is not quiet -/
+example : (GW.WOp.base (.removeEdge 0)).quietFor = false := rfl
+
+/-- `C01_conversion_agrees_with_C02` applies to every reachable state, e.g. after `demoOps2` -/
+example : ∃ s', rebuild (run (G.empty 255 true) demoOps2).1 = .ok s' ∧
+    SG.toGraph (toStable false true (run (G.empty 255 true) demoOps2).1) = .ok (toStable false true s') :=
+  let ⟨s', h1, h2, _⟩ := C01_conversion_agrees_with_C02 _ (C01_inv_all_histories 255 true demoOps2) false true
+  ⟨s', h1, h2⟩
+
+/-- a `StableGraph` history that leaves a vacancy (node 0 removed) and re-uses a vacant edge slot -/
+def demoSGops : List SG.Op :=
+  [.addNode 1, .addNode 2, .addNode 3, .addEdge 0 1 10, .addEdge 1 2 11, .addEdge 2 2 12, .removeNode 0, .addEdge 2 1 13]
+def demoSG : SG.State :=
+  ((SG.run (SG.empty true 255 false true) demoSGops).toOption.map (·.1)).getD (SG.empty true 255 false true)
+
+/-- the hypotheses of `C01_from_stable_graph` hold for it, it has a vacancy, and the conversion
+renames node 1 ↦ 0, node 2 ↦ 1 -/
+example : SGProofs.Inv demoSG ∧ demoSG.nodeCount < SG.nodeBound demoSG ∧
+    (∀ n ∈ demoSG.nodes, 0 ≤ n.w.getD 0) ∧ (∀ e ∈ demoSG.edges, 0 ≤ e.w.getD 0) ∧
+    ((SG.toGraph demoSG).toOption.map fun r => r.edges.map fun e => (e.a, e.b)) = some [(1, 0), (0, 1), (1, 1)] := by
+  refine ⟨?_, by decide, by decide, by decide, by decide⟩
+  obtain ⟨s', outs, hrun, hinv⟩ := C01Conv.sg_run_inv demoSGops _ (SGProofs.inv_empty true 255 false true)
+  have : demoSG = s' := by simp only [demoSG, hrun]; rfl
+  rw [this]; exact hinv
 
 end PetgraphModel.C01T
